@@ -19,7 +19,7 @@ ASSUMPTIONS = [
     "an aborted write may or may not take effect (set-valued), at any later time until the next completed write to that byte",
 ]
 MIN_NONTRIVIAL = {"quick": 10, "thorough": 40}
-CLASSES = ["classic", "bursts", "mixed", "aborts", "same-word-rw", "aborts-bursts", "aborts-reads", "aborts-writes"]
+CLASSES = ["classic", "bursts", "mixed", "aborts", "same-word-rw", "aborts-bursts", "aborts-reads", "aborts-writes", "abort-crossing"]
 RATIOS = [(8, 64), (16, 64), (32, 64), (32, 128), (32, 32), (64, 64), (64, 32), (64, 16), (128, 16), (32, 256)]   # (wb bits, port bits)
 
 
@@ -74,6 +74,18 @@ def gen_accesses(c, r, aw_wb, ratio_n):
         if cls == "aborts-bursts":
             kind = r.choice(["aborts", "bursts", "bursts"])
         base = r.choice(hot) + r.randrange(8 * max(1, ratio_n))
+        if kind == "abort-crossing" and r.random() < 0.6 and ratio_n >= 2:
+            # incrementing read burst that fills the read cache with one wide word, crosses into the next one and is
+            # dropped right there (while the bridge is issuing / waiting for the new wide word); the retry follows quickly
+            wide = (base // ratio_n) * ratio_n
+            first = max(0, ratio_n - r.choice([1, 2, 2]))
+            g = [dict(adr=wide + i, we=False, sel=full, dat=0, cti=2, abort_after=None) for i in range(first, ratio_n)]
+            g.append(dict(adr=wide + ratio_n, we=False, sel=full, dat=0, cti=2, abort_after=r.choice([0, 0, 1, 1, 2, 4, 8])))
+            groups.append(g)
+            n += len(g)
+            continue
+        if kind == "abort-crossing":
+            kind = r.choice(["classic", "bursts", "aborts-reads"])
         if kind in ("classic", "aborts", "aborts-reads", "aborts-writes"):
             we = r.random() < 0.5
             may_abort = kind == "aborts" or (kind == "aborts-reads" and not we) or (kind == "aborts-writes" and we)
@@ -109,7 +121,16 @@ def gen_accesses(c, r, aw_wb, ratio_n):
             else:
                 groups += [[b] for b in g]
             n += len(g)
-    return groups
+    # a master that had to drop a cycle usually retries: after a group that may abort, a read of the aborted beat's address
+    # (or of its neighbour in the same wide word) follows after a gap of only 1..3 cycles
+    out = []
+    for g in groups:
+        out.append(g)
+        ab = [b for b in g if b["abort_after"] is not None]
+        if ab and r.random() < 0.6:
+            b = ab[0]
+            out.append([dict(adr=b["adr"] + r.choice([0, 0, 1]), we=False, sel=full, dat=0, cti=0, abort_after=None, retry=True)])
+    return out
 
 
 def run_wb2native(c):
@@ -183,7 +204,7 @@ def run_wb2native(c):
         yield [wb.cyc.eq(0), wb.stb.eq(0)]
         for _ in range(3):
             yield
-        for g in groups:
+        for gi, g in enumerate(groups):
             for bi, b in enumerate(g):
                 for _ in range(r.randint(0, c["gap"]) if c["gap"] else 0):
                     # between beats of a burst the master may insert wait states (stb low, cyc high)
@@ -247,7 +268,8 @@ def run_wb2native(c):
                     # abort: drop cyc and stb, scramble the bus, idle a while
                     yield [wb.stb.eq(0), wb.cyc.eq(0), wb.dat_w.eq(r.getrandbits(wbw)), wb.sel.eq(r.getrandbits(wbb)), wb.we.eq(r.getrandbits(1)),
                            wb.adr.eq(r.getrandbits(10))]
-                    for idle_k in range(r.randint(1, 40)):
+                    nxt_retry = gi + 1 < len(groups) and groups[gi + 1][0].get("retry")
+                    for idle_k in range(r.choice([1, 1, 1, 2, 3]) if nxt_retry else r.randint(1, 40)):
                         yield
                         if idle_k == 0 and fsm is not None and not narrow_path:
                             # the bridge's own FSM tells whether the command of the dropped access had already been accepted:
